@@ -1906,7 +1906,18 @@ impl ArchiveBuilder {
         value: u64,
         bit_size: u32,
     ) -> Result<()> {
-        let bit_offset = index * bit_size as usize;
+        self.write_bits_at(data, index * bit_size as usize, value, bit_size)
+    }
+
+    /// Write the low `bit_size` (<= 64) bits of `value` at bit position `bit_offset` of `data`
+    fn write_bits_at(
+        &self,
+        data: &mut [u8],
+        bit_offset: usize,
+        value: u64,
+        bit_size: u32,
+    ) -> Result<()> {
+        let index = bit_offset / (bit_size.max(1) as usize);
         let byte_offset = bit_offset / 8;
         let bit_shift = bit_offset % 8;
 
@@ -2141,15 +2152,23 @@ impl ArchiveBuilder {
                 // Get flag index
                 let flag_index = flag_index_map.get(&entry.flags).unwrap();
 
-                // Pack entry data
-                let mut entry_bits = 0u64;
-                entry_bits |= (entry.file_pos as u64) << bit_index_file_pos;
-                entry_bits |= (entry.file_size as u64) << bit_index_file_size;
-                entry_bits |= (entry.compressed_size as u64) << bit_index_cmp_size;
-                entry_bits |= (*flag_index as u64) << bit_index_flag_index;
-
-                // Write to file table
-                self.write_bit_entry(&mut file_table, i, entry_bits, table_entry_size)?;
+                // Write the fields of the entry one by one at their bit positions. The entry as a whole
+                // can be wider than 64 bits (three ~22-bit fields once an archive holds a member of a few
+                // megabytes), so it must not be assembled in a u64 first (`x << bit_index` overflowed).
+                let entry_bit = i * table_entry_size as usize;
+                for (value, bit_index, bit_count) in [
+                    (entry.file_pos as u64, bit_index_file_pos, bit_count_file_pos),
+                    (entry.file_size as u64, bit_index_file_size, bit_count_file_size),
+                    (entry.compressed_size as u64, bit_index_cmp_size, bit_count_cmp_size),
+                    (*flag_index as u64, bit_index_flag_index, bit_count_flag_index),
+                ] {
+                    self.write_bits_at(
+                        &mut file_table,
+                        entry_bit + bit_index as usize,
+                        value,
+                        bit_count,
+                    )?;
+                }
 
                 // BET name hash: the same lookup3 (hashlittle2) value the reader computes in
                 // BetTable::verify_file_hash, at the width stored in the table
